@@ -136,6 +136,7 @@ def schemes(draw, *, labels="neutral", allow_full=True, max_datasets=4, features
             "dataset_weight_seed": None,
             "data_seed": draw(st.integers(0, 2**31 - 1)),
             "noise": draw(st.sampled_from([0.0, 0.01, 0.1])) if noise else 0.0,
+            "data_sign": draw(st.sampled_from([1, 1, -1])),  # negative data: NNLS solutions with an active constraint
         }
         if features and draw(st.integers(0, 2)) == 0:
             d["megacomplex_scale"] = []
@@ -174,9 +175,20 @@ def schemes(draw, *, labels="neutral", allow_full=True, max_datasets=4, features
         common = sorted(set.intersection(*axes))
         lo_all, hi_all = min(pool), max(pool)
         related = []
+        rel_pairs = []
         if len(present) >= 2:
-            for _ in range(draw(st.integers(0, 1))):
-                s, t = draw(st.lists(st.sampled_from(present), min_size=2, max_size=2, unique=True))
+            for _ in range(draw(st.sampled_from([0, 1, 1, 2]))):
+                # a label is the target of at most one relation and never both a source and a target (chains are undefined)
+                free_labels = [l for l in present if l not in related]
+                srcs = [l for l in present if l not in [t_ for _, t_ in rel_pairs]]
+                if len(free_labels) < 1 or len(srcs) < 1:
+                    break
+                t = draw(st.sampled_from(free_labels))
+                cand = [l for l in srcs if l != t]
+                if not cand:
+                    break
+                s = draw(st.sampled_from(cand))
+                rel_pairs.append((s, t))
                 params["rel"].append(draw(st.sampled_from([0.5, 2.0, 1.5, -0.5])))
                 relations.append({"source": s, "target": t, "parameter": f"rel.{len(params['rel'])}",
                                   "interval": _maybe_intervals(draw, pool)})
@@ -301,6 +313,10 @@ def parameter_dict(case):
     for grp, vals in case["parameters"].items():
         nn = set(case.get("non_negative", []))
         out[grp] = [[v, {"vary": f"{grp}.{j+1}" in free, "non-negative": f"{grp}.{j+1}" in nn}] for j, v in enumerate(vals)]
+    if case.get("expr_param"):
+        # a parameter defined by an expression on a free parameter (not used by the model): must follow r.1, must never
+        # leak into the caller's parameters, is never handed to the optimiser
+        out["x"] = [["dbl", {"expr": "$r.1 * 2 + 1"}]]
     return out
 
 
@@ -311,7 +327,7 @@ def dataset_arrays(d):
     t = np.asarray(d["model_axis"])[:, None]
     g = np.asarray(d["global_axis"])[None, :]
     base = np.exp(-0.5 * np.abs(t)) * (1.0 + 0.3 * np.cos(g)) + 0.5 / (1 + t * t) * (0.5 + 0.1 * g)
-    data = base * (1 + rng.uniform(-0.2, 0.2)) + d["noise"] * rng.standard_normal((nm, ng)) + 0.05 * rng.standard_normal((nm, ng))
+    data = d.get("data_sign", 1) * base * (1 + rng.uniform(-0.2, 0.2)) + d["noise"] * rng.standard_normal((nm, ng)) + 0.05 * rng.standard_normal((nm, ng))
     weight = None
     if d.get("dataset_weight_seed") is not None:
         wr = np.random.default_rng(d["dataset_weight_seed"])
@@ -364,6 +380,7 @@ def fit_cases(draw, **kw):
         case["points"] = [list(p) + [1.0] for p in case["points"]]
     nn = [l for l in case["free"] if l.startswith("r.") and draw(st.integers(0, 3)) == 0]
     case["non_negative"] = nn
+    case["expr_param"] = draw(st.booleans())
     return case
 
 
